@@ -47,7 +47,7 @@ def mutations(v, rng, atoms):
         if sub[0] == 'A':
             f = sub[2]
             if f is None or f[0] == 'U':
-                for g in FEATS + ('b',):
+                for g in FEATS + ('b', 'x', 'DCL', 'Nb', 'dcl '.strip() + '2'):
                     nf = None if g is None else ('U', g)
                     if nf != f:
                         out.append(put(v, p, ('A', sub[1], nf)))
